@@ -40,7 +40,7 @@ class GV:
             setattr(self, k, v)
 
 
-GV_STYLES = ['dict', 'ordered_dict', 'instance', 'class_attrs', 'inherited', 'property', 'namespace', 'module', 'mixed', 'slots', 'defaultdict', 'fallback_dict']
+GV_STYLES = ['dict', 'ordered_dict', 'instance', 'class_attrs', 'inherited', 'property', 'namespace', 'module', 'mixed', 'slots', 'defaultdict', 'fallback_dict', 'falsy_object', 'falsy_mapping']
 
 
 def make_gv(vars_, style):
@@ -56,6 +56,18 @@ def make_gv(vars_, style):
     if style == 'defaultdict':
         # a mapping with a fallback for unknown keys: `name in mapping` still says which names are DEFINED
         return collections.defaultdict(str, vars_)
+    if style == 'falsy_object':
+        # a settings object that defines the names but whose truth value is False (e.g. it has a __len__ of its own)
+        cls = type('GVFalsy', (), {'__bool__': lambda self: False, '__len__': lambda self: 0})
+        obj = cls()
+        for k, v in vars_.items():
+            setattr(obj, k, v)
+        return obj
+    if style == 'falsy_mapping':
+        class LazySettings(dict):
+            def __len__(self):
+                return 0          # (counts only what was "loaded"; membership and item access work)
+        return LazySettings(vars_)
     if style == 'fallback_dict':
         class Fallback(dict):
             def __missing__(self, key):
@@ -184,8 +196,34 @@ def check_tree(tree, vars_, as_object, res: CaseResult, rng):
         return
     if not isinstance(tree, str) and out is not work:
         res.violate('search_and_replace_placeholders did not return the traversed object', witness=wit)
-    if isinstance(gv, dict) and dict(gv) != dict(vars_):
+    if isinstance(gv, dict) and {k: gv[k] for k in dict.keys(gv)} != dict(vars_):
         res.violate(f'the global_vars mapping was modified by the substitution: {dict(gv)!r} (was {dict(vars_)!r})', witness=wit)
+    # the caller corrects a variable / defines a new one in the SAME object and substitutes a fresh copy of the data: the new values count
+    if rng.random() < 0.3 and as_object in ('dict', 'ordered_dict', 'instance', 'namespace', 'module', 'defaultdict', 'falsy_mapping', True, False):
+        vars2 = dict(vars_)
+        for k in list(vars2)[:1]:
+            vars2[k] = 'corrected'
+        vars2['U'] = 'now-defined'
+        for k, v in vars2.items():
+            if isinstance(gv, dict):
+                gv[k] = v
+            else:
+                setattr(gv, k, v)
+        fresh = copy.deepcopy(orig)
+        try:
+            out2 = search_and_replace_placeholders(fresh, gv)
+        except Exception as e:
+            res.violate(f'substitution after the global_vars object was updated raised {type(e).__name__}: {e}', witness=wit)
+            return
+        res.count('substitutions_after_global_vars_update')
+        o2 = dict(walk(orig)) if not isinstance(orig, str) else {(): orig}
+        n2 = dict(walk(out2)) if not isinstance(out2, str) else {(): out2}
+        for path_, leaf in o2.items():
+            if isinstance(leaf, str) and not AMBIG.search(leaf) and path_ in n2:
+                if not any(isinstance(v, str) and '{' in v for v in vars2.values()) and str(n2[path_]) != ref_sub(leaf, vars2):
+                    res.violate(f'after updating the global_vars object ({vars2}) the string {leaf!r} at {path_} was substituted to {str(n2[path_])!r}, expected {ref_sub(leaf, vars2)!r}',
+                                witness=wit)
+                    break
     res.count('trees')
     nontriv = False
     # structure + leaves
